@@ -11,6 +11,7 @@ PID = "C45"
 TITLE = "Shutdown releases every connection and stops accepting work"
 LEVEL = "exploration"
 ENGINE = "sim"
+THOROUGH_SCALE = 1.0
 SERIAL = os.environ.get("VERIF_TIER") == "quick"   # heavily loaded machine: a forked pool is slower than one process
 TECHNIQUE = ("model-based generation of event histories with shutdown injected at a generated point (Hypothesis) over the "
              "real Cluster/Session/ControlConnection/pools/scheduler on a deterministic simulated network in which a "
